@@ -41,6 +41,18 @@ def helper(a, b):
     return a - b
 
 
+def scaled_by_default(s, k=3.0):
+    return s * k
+
+
+def calls_with_default(a):
+    return scaled_by_default(a)
+
+
+def calls_with_keyword(a, b):
+    return scaled_by_default(a, k=b)
+
+
 def loopinc(a):
     i = 0
     while i < 1:
